@@ -217,6 +217,8 @@ type pkgAn struct {
 	fields      map[*types.Var]*fieldInfo
 	innerMutex  map[*fieldInfo]*fieldInfo
 	tracked     map[string]bool // pkg.Type
+	confined    map[string]bool // pkg.Type: goroutine-confined helper types (confined.go)
+	confNotes   []string
 	decls       map[*types.Func]*ast.FuncDecl
 	sends       map[string]int
 	closes      map[string]int
@@ -485,6 +487,16 @@ func Extract(root string) (*Table, error) {
 			}
 		}
 		pubNotes = append(pubNotes, pnotes...)
+		pubNotes = append(pubNotes, pa.confNotes...)
+		arow, anotes := pa.argRows()
+		for _, r := range arow {
+			k := r.semKey()
+			if _, ok := all[k]; !ok {
+				all[k] = r
+				order = append(order, k)
+			}
+		}
+		pubNotes = append(pubNotes, anotes...)
 		for t := range pa.tracked {
 			tbl.Types = append(tbl.Types, t)
 		}
@@ -594,7 +606,7 @@ func analysePackage(root, dir string) (*pkgAn, error) {
 	}
 	rel, _ := filepath.Rel(root, dir)
 	pa := &pkgAn{files: files, path: modulePath(root) + "/" + filepath.ToSlash(rel), short: pkg.Name(), rel: rel, fset: fset, info: info, fields: map[*types.Var]*fieldInfo{}, innerMutex: map[*fieldInfo]*fieldInfo{}, busTypes: map[string]*types.Struct{}, freshMemo: map[*ast.FuncDecl]map[types.Object]bool{}, aliasMemo: map[*ast.FuncDecl]map[string]string{}, freshLocals: map[*ast.FuncDecl]*freshInfo{},
-		tracked: map[string]bool{}, decls: map[*types.Func]*ast.FuncDecl{}, sends: map[string]int{}, closes: map[string]int{},
+		tracked: map[string]bool{}, confined: map[string]bool{}, decls: map[*types.Func]*ast.FuncDecl{}, sends: map[string]int{}, closes: map[string]int{},
 		rows: map[string]*Row{}, memo: map[string]bool{}, called: map[*types.Func]bool{},
 		summaries: map[*types.Func]map[int][]map[string]string{}, newSumm: map[*types.Func]map[int][]map[string]string{}}
 
@@ -743,10 +755,25 @@ func analysePackage(root, dir string) (*pkgAn, error) {
 			delete(busShared, n)
 		}
 	}
-	// the remaining objects (event types keep their bus-shared treatment)
+	// the remaining objects (event types keep their bus-shared treatment); among them the unexported helper
+	// types whose instances never leave the goroutine that created them (confined.go)
+	confCands := map[string]*types.TypeName{}
 	for _, s := range structs {
 		if ptrRecv[s.name] && !trackedNames[s.name] {
 			trackedNames[s.name] = true
+			if !ast.IsExported(s.name) {
+				confCands[s.name] = s.obj
+			}
+		}
+	}
+	confRes := pa.confinedTypes(confCands)
+	for _, n := range sortedKeys(confRes) {
+		if os.Getenv("C11_DEBUG_CONFINED") != "" {
+			fmt.Fprintf(os.Stderr, "confined? %s.%s: %q\n", pa.short, n, confRes[n])
+		}
+		if confRes[n] == "" {
+			pa.confined[pa.short+"."+n] = true
+			pa.confNotes = append(pa.confNotes, "goroutine-confined type "+pa.short+"."+n+": every instance is created in a function and only reached through locals, receivers, parameters and results of that type on the creating goroutine (never stored, sent, converted or captured by a go statement); its rows are constructor-phase")
 		}
 	}
 	for _, s := range structs {
@@ -977,6 +1004,9 @@ func (pa *pkgAn) record(c *fctx, st *state, fi *fieldInfo, kind string, at ast.E
 	r := &Row{Field: fi.full(), Kind: kind, Fn: c.fn, Phase: c.phase, Role: c.role, Pos: []string{pa.pos(at)}}
 	if fi.busShared && pa.privateEvent(c, at) {
 		r.Phase = "init" // a private copy (struct value) or an event this function has just created
+	}
+	if pa.confined[fi.owner] {
+		r.Phase = "init" // the object never leaves the goroutine that created it (confined.go)
 	}
 	if !fi.busShared && r.Phase == "live" && pa.freshLocalAccess(c, at) {
 		r.Phase = "init" // an object this function has created and not yet handed to another goroutine (fresh.go)
